@@ -2,7 +2,8 @@
 
    THE MODEL THESE THEOREMS ARE ABOUT is the one the harness compares with the implementation on every run:
    Model/C06_Compose.v with fix_mm = fix_ps = true and gm_mode1_cb, i.e. quara's code AFTER the three repairs of /verif/fixes
-   (compose-mprocess-mprocess-order-layout, compose-mprocess-state-poststate-normalisation, povm-generate-mprocess-mode1-eigenvectors).
+   (compose-mprocess-mprocess-order-layout, compose-mprocess-state-poststate-normalisation, povm-generate-mprocess-mode1-eigenvectors)
+   and the round-3 repair povm-generate-mprocess-mode1-eigenspace-tolerance (gm_mode1_cb with tol = atol).
    The three `_refuted` theorems at the end are about the clearly labelled definitions of the code AS IT WAS BEFORE each fix
    (fix_mm = false / fix_ps = false / gm_mode1_cb_prefix); the harness uses the same definitions to recognise a regression.
 
@@ -11,7 +12,7 @@
 From Coq Require Import List Arith Bool ZArith QArith Qcanon.
 From QV.Core Require Import OF QcOF Sums Mat Cplx Psd.
 From QV.Model Require Import QObj HermEmbed Multinomial C06_Compose C06_Spec C06_Witness.
-From QV.Proofs Require Import C06_Linear C06_Chain C06_Coded C06_QM C06_Main C06_GenMProcess C06_Physical C06_Witness.
+From QV.Proofs Require Import C06_Linear C06_Chain C06_Coded C06_QM C06_Main C06_GenMProcess C06_Physical C06_Choi C06_Thresholds C06_Witness.
 Import ListNotations.
 
 (* ================================================================== 1. a gate acts on a state through its Kraus operators *)
@@ -49,8 +50,25 @@ Theorem C06_povm_on_state_born : forall (F : OF) (n : nat) (sd atol eps8 : F) (o
   match construct F eps8 eps8 (born_list F n P v) (Some [length P]) with MErr c => MErr c | MOk D => MOk (QDist F D) end.
 Proof. exact povm_on_state_born. Qed.
 Print Assumptions C06_povm_on_state_born.
-(* PARTIAL w.r.t. thresholds: Born numbers below atol are zeroed and the rest renormalised (truncate_and_normalize); the resulting
-   deviation from the Born rule is bounded by the zeroed mass — modelled and compared on every run, not stated as a theorem. *)
+(* WITH truncation (round 3): truncate_and_normalize returns the Born numbers with the sub-threshold ones zeroed, divided by the retained mass;
+   the result sums to EXACTLY one and is entrywise non-negative; a returned entry times the retained mass is the (zeroed) Born number *)
+Theorem C06_truncate_and_normalize_spec : forall (F : OF) (atol : F) (l r : list F), kle F (c0 F) atol ->
+  truncate_and_normalize F atol l = MOk r ->
+  lsum F (tn_zeroed F atol l) <> c0 F /\
+  r = map (fun p => kdiv F p (lsum F (tn_zeroed F atol l))) (tn_zeroed F atol l) /\
+  lsum F r = c1 F /\ Forall (fun p => kle F (c0 F) p) r.
+Proof. exact truncate_and_normalize_spec. Qed.
+Print Assumptions C06_truncate_and_normalize_spec.
+Theorem C06_truncate_and_normalize_proportional : forall (F : OF) (atol : F) (l r : list F) (x : nat), kle F (c0 F) atol ->
+  truncate_and_normalize F atol l = MOk r ->
+  cmul F (nth x r (c0 F)) (lsum F (tn_zeroed F atol l)) = nth x (tn_zeroed F atol l) (c0 F).
+Proof. exact truncate_and_normalize_proportional. Qed.
+Print Assumptions C06_truncate_and_normalize_proportional.
+(* the only error: everything is below the threshold (0/0, rejected by the distribution constructor as "sum is not 1") *)
+Theorem C06_truncate_and_normalize_error : forall (F : OF) (atol : F) (l : list F) (c : nat),
+  truncate_and_normalize F atol l = MErr c -> c = 3%nat /\ lsum F (tn_zeroed F atol l) = c0 F.
+Proof. exact truncate_and_normalize_error. Qed.
+Print Assumptions C06_truncate_and_normalize_error.
 
 (* ================================================================== 3. a POVM after a gate / measurement process: Heisenberg picture *)
 Theorem C06_povm_after_gate_heisenberg : forall (F : OF) (n : nat) (sd atol eps8 : F) (ortho : bool) (ivec : rvec F) (s : Z) (P : list (rvec F)) (G : rmat F),
@@ -111,8 +129,28 @@ Theorem C06_mprocess_post_state_normalised : forall (F : OF) (n : nat) (sd atol 
   Forall (normalised_or_zero F sd) (en_states F E).
 Proof. exact mproc_on_state_post_normalised. Qed.
 Print Assumptions C06_mprocess_post_state_normalised.
-(* PARTIAL w.r.t. thresholds: the renormalisation of the probabilities after a cut and MProcess on StateEnsemble / Povm on StateEnsemble
-   (weights, eps_zero of the ensemble, zero distributions) are modelled and compared on every run, not stated as theorems. *)
+(* the eps_zero cut (round 3): after a cut with something retained the outcome probabilities of a branch are the retained raw probabilities
+   divided by the retained mass; they sum to one and the returned weights w * p sum to the branch weight w; when everything is cut all are zero *)
+Theorem C06_mprocess_cut_renormalised : forall (F : OF) (eps w : F) (raw : list F),
+  existsb (mps_cut F eps w) raw = true -> lsum F (mps_ps0 F eps w raw) <> c0 F ->
+  mps_ps1 F eps w raw = map (fun p => kdiv F p (lsum F (mps_ps0 F eps w raw))) (mps_ps0 F eps w raw) /\
+  lsum F (mps_ps1 F eps w raw) = c1 F /\
+  lsum F (map (fun p => cmul F w p) (mps_ps1 F eps w raw)) = w.
+Proof. exact mps_ps1_cut. Qed.
+Print Assumptions C06_mprocess_cut_renormalised.
+Theorem C06_mprocess_all_cut : forall (F : OF) (eps w : F) (raw : list F),
+  forallb (mps_cut F eps w) raw = true -> Forall (fun p => p = c0 F) (mps_ps1 F eps w raw).
+Proof. exact mps_ps1_all_cut. Qed.
+Print Assumptions C06_mprocess_all_cut.
+(* a (probability, trace-one state) pair is determined by the un-normalised vector p * rho: the bridge from the linear associativity theorem
+   (section 6) to normalised results *)
+Theorem C06_normalised_determined_by_linear_content : forall (F : OF) (n : nat) (sd p p' : F) (st st' : rvec F), (0 < n)%nat ->
+  cmul F sd (st 0%nat) = c1 F -> cmul F sd (st' 0%nat) = c1 F -> (forall i, (i < n)%nat -> cmul F p (st i) = cmul F p' (st' i)) ->
+  p = p' /\ (p <> c0 F -> veq n st st').
+Proof. exact normalised_determined. Qed.
+Print Assumptions C06_normalised_determined_by_linear_content.
+(* PARTIAL: MProcess on StateEnsemble / Povm on StateEnsemble (weights, eps_zero of the ensemble, zero distributions) and the thresholds of the
+   MultinomialDistribution constructor applied afterwards (C16) are modelled and compared on every run, not stated as theorems. *)
 
 (* ================================================================== 5. a measurement process after a measurement process *)
 (* compose(M1, M2) (M2 acts first): shape = shape(M2) ++ shape(M1) (earlier measurement first) and at the row-major position
@@ -176,8 +214,25 @@ Theorem C06_composition_preserves_kraus_form : forall (F : OF) (d : nat) (B : na
   gate_gate F (d * d) (hs_of_kraus d B Ks1) (hs_of_kraus d B Ks2) a b = hs_of_kraus d B (kraus_products F d Ks1 Ks2) a b.
 Proof. exact hs_of_kraus_compose. Qed.
 Print Assumptions C06_composition_preserves_kraus_form.
-(* PARTIAL: "completely positive" as PSD Choi matrix (DESIGN 2.9; Choi's theorem is not re-proved, so Kraus form => PSD Choi is not a
-   theorem here); on every run PSD-ness of the Choi matrix of every composite is DECIDED exactly by the verified psd_dec (C01). *)
+(* COMPLETE POSITIVITY AS PSD CHOI MATRIX (DESIGN 2.9; the notion C01 and the harness decide with psd_dec: Hermitian + PSD of the real
+   symmetric embedding).  The Choi matrix of a Kraus-form HS matrix is  sum_K vec(K) vec(K)^dagger  entry by entry ... *)
+Theorem C06_choi_of_kraus_form : forall (F : OF) (d : nat) (B : nat -> cmat F) (Ks : list (cmat F)) (al be : nat),
+  basis_complete d B -> basis_hermitian d B -> (al < d * d)%nat -> (be < d * d)%nat ->
+  choi_of_hs d B (hs_of_kraus d B Ks) al be = wouter F (kraus_vecs F d Ks) al be.
+Proof. exact choi_of_kraus. Qed.
+Print Assumptions C06_choi_of_kraus_form.
+(* ... hence PSD (round 3: Kraus form => PSD Choi) ... *)
+Theorem C06_kraus_form_is_cp : forall (F : OF) (d : nat) (B : nat -> cmat F) (Ks : list (cmat F)),
+  basis_complete d B -> basis_hermitian d B -> cpsd F (d * d) (choi_of_hs d B (hs_of_kraus d B Ks)).
+Proof. exact kraus_choi_cpsd. Qed.
+Print Assumptions C06_kraus_form_is_cp.
+(* ... and the HS product the code forms from two completely positive (Kraus-form) factors is completely positive *)
+Theorem C06_composition_is_cp : forall (F : OF) (d : nat) (B : nat -> cmat F) (Ks1 Ks2 : list (cmat F)),
+  basis_complete d B -> basis_hermitian d B ->
+  cpsd F (d * d) (choi_of_hs d B (gate_gate F (d * d) (hs_of_kraus d B Ks1) (hs_of_kraus d B Ks2))).
+Proof. exact compose_kraus_choi_cpsd. Qed.
+Print Assumptions C06_composition_is_cp.
+(* (Choi's theorem in the other direction - PSD Choi => Kraus form - is not needed and not proved; a factor is assumed in Kraus form.) *)
 
 (* ================================================================== 8. Povm.generate_mprocess induces the POVM, every back-action mode *)
 (* mode 0: S (x) conj S with S Hermitian, S S = Pi (certificate checked on the sqrtm output): induced effect = Pi; entry (a,b) of the
@@ -192,13 +247,29 @@ Theorem C06_generate_mprocess_mode0_is_luders : forall (F : OF) (d : nat) (S X :
   mv (d * d) (gm_mode0_cb F d S) (vecr d X) t = vecr d (mmul d (mmul d S X) (cadj S)) t.
 Proof. exact gm_mode0_is_luders. Qed.
 Print Assumptions C06_generate_mprocess_mode0_is_luders.
-(* mode 1 (the code, including its grouping of exactly equal adjacent eigenvalues): V with orthonormal columns and
-   Pi = V diag(w) V^dagger (certificate checked on the eigh output): induced effect = Pi *)
-Theorem C06_generate_mprocess_mode1_induces_povm : forall (F : OF) (d : nat) (w : nat -> F) (V Pi : cmat F),
-  cols_orthonormal F d V -> meq d d Pi (spectral F d w V) ->
-  forall c, (c < d * d)%nat -> induced_effect_cb F d (gm_mode1_cb F d w V) c = Pi (c mod d)%nat (c / d)%nat.
-Proof. exact gm_mode1_induces_povm. Qed.
+(* mode 1 (the code, including its grouping of adjacent eigenvalues within tol = atol of the group's first eigenvalue): V with orthonormal
+   columns (certificate checked on the eigh output): the induced effect is V diag(u) V^dagger with every u_k within tol of the eigenvalue
+   w_k eigh returned (u_k = key of k's group); with Pi = V diag(w) V^dagger (certificate) this is Pi up to tol per eigenvalue *)
+Theorem C06_generate_mprocess_mode1_induces_povm : forall (F : OF) (d : nat) (V : cmat F) (tol : F) (w : nat -> F),
+  cols_orthonormal F d V -> kle F (c0 F) tol ->
+  exists u : nat -> F, (forall j, (j < d)%nat -> kle F (absF' F (csub F (w j) (u j))) tol) /\
+    forall c, induced_effect_cb F d (gm_mode1_cb F d tol w V) c = spectral F d V u (c mod d)%nat (c / d)%nat.
+Proof. exact gm_mode1_induces. Qed.
 Print Assumptions C06_generate_mprocess_mode1_induces_povm.
+(* ... it IS the eigenprojector instrument  X |-> sum_g key_g P_g X P_g^dagger  on row-major vectorised operators ... *)
+Theorem C06_generate_mprocess_mode1_action : forall (F : OF) (d : nat) (V : cmat F) (tol : F) (w : nat -> F) (X : cmat F) (t : nat), (0 < d)%nat ->
+  mv (d * d) (gm_mode1_cb F d tol w V) (vecr d X) t = vecr d (groups_apply F d (gm1_groups F d (colouter F V) tol w) X) t.
+Proof. exact gm_mode1_acts. Qed.
+Print Assumptions C06_generate_mprocess_mode1_action.
+(* ... whose P_g are orthogonal projectors (idempotent, Hermitian): coherence inside a (numerically) degenerate eigenspace survives *)
+Theorem C06_generate_mprocess_mode1_projectors : forall (F : OF) (d : nat) (V : cmat F) (tol : F) (w : nat -> F),
+  cols_orthonormal F d V -> kle F (c0 F) tol ->
+  Forall (fun g => (forall b a, mmul d (snd g) (snd g) b a = snd g b a) /\ (forall b a, cadj (snd g) b a = snd g b a))
+         (gm1_groups F d (colouter F V) tol w).
+Proof. exact gm_mode1_groups_are_projectors. Qed.
+Print Assumptions C06_generate_mprocess_mode1_projectors.
+(* PARTIAL: that P_g is the projector onto the span of exactly the eigenvectors of its group, and mutual orthogonality of different groups,
+   are invariants inside the proof (orthf) but not exported; completeness sum_g P_g = I needs V V^dagger = I and is not stated. *)
 (* mode 2: |rho_x>><<Pi_x| with tr rho_x = 1: MProcess.to_povm gives back Pi_x (one common post state, or one per outcome) ... *)
 Theorem C06_generate_mprocess_mode2_induces_povm : forall (F : OF) (n : nat) (sd : F) (P post : list (rvec F)),
   Forall (trace_one F sd) post -> length post = length P -> Forall2 (veq n) (to_povm F sd (gm_mode2_list F P post)) P.
@@ -213,8 +284,20 @@ Theorem C06_generate_mprocess_mode2_measure_and_prepare : forall (F : OF) (n : n
   mv n (fun a0 b => cmul F (post a0) (p b)) v a = cmul F (dot n p v) (post a).
 Proof. exact gm_mode2_action. Qed.
 Print Assumptions C06_generate_mprocess_mode2_measure_and_prepare.
-(* PARTIAL: complete positivity of the mode 0 / 1 / 2 instruments and the conversion comp basis -> matrix basis + truncate_hs are not
-   theorems; CP is decided exactly on every generated instrument by psd_dec, the conversion is part of the executed model. *)
+(* COMPLETE POSITIVITY of the generated instruments (round 3): the Choi matrix of the mode-0 instrument and of the mode-1 instrument (group keys
+   >= 0, i.e. the effect's eigenvalues as returned by eigh are non-negative), converted from the comp basis to any complete basis B, is PSD *)
+Theorem C06_generate_mprocess_mode0_is_cp : forall (F : OF) (d : nat) (B : nat -> cmat F) (S : cmat F), basis_complete d B ->
+  cpsd F (d * d) (C02_Conv.cchoi_of_hs d B (C02_Conv.convert_hs d (C02_Conv.comp_basis d) B (gm_mode0_cb F d S))).
+Proof. exact gm_mode0_choi_cpsd. Qed.
+Print Assumptions C06_generate_mprocess_mode0_is_cp.
+Theorem C06_generate_mprocess_mode1_is_cp : forall (F : OF) (d : nat) (B : nat -> cmat F) (tol : F) (w : nat -> F) (V : cmat F), basis_complete d B ->
+  Forall (fun g => kle F (c0 F) (fst g)) (gm1_groups F d (colouter F V) tol w) ->
+  cpsd F (d * d) (C02_Conv.cchoi_of_hs d B (C02_Conv.convert_hs d (C02_Conv.comp_basis d) B (gm_mode1_cb F d tol w V))).
+Proof. exact gm_mode1_choi_cpsd. Qed.
+Print Assumptions C06_generate_mprocess_mode1_is_cp.
+(* PARTIAL: stated for the complex HS matrix BEFORE truncate_hs (which drops imaginary rounding noise and zeroes |entries| < 1e-13) and with C02's
+   convert_hs (the executed model uses its own c06_convert_from_cb, same formula); CP of the mode-2 instrument |rho>><<Pi| (needs PSD of a
+   Kronecker product of PSD matrices) is not proved; all three are DECIDED exactly on every generated instrument by psd_dec. *)
 
 (* ================================================================== 9. the code AS IT WAS BEFORE the fixes violates the property
    (statements about the labelled pre-fix definitions; computed witnesses on the 2-qubit normalised Pauli basis, sd = 2) *)
@@ -242,12 +325,22 @@ Print Assumptions C06_post_state_before_fix_refuted.
 Theorem C06_generate_mprocess_mode1_before_fix_refuted :
   chk_induces (gm_mode1_cb_prefix QF 2 w_eig V_real) (eig_matrix V_real) = false /\
   chk_induces (gm_mode1_cb_prefix QF 2 w_eig V_cplx) (eig_matrix V_cplx) = false /\
-  chk_induces (gm_mode1_cb QF 2 w_eig V_real) (eig_matrix V_real) = true /\
-  chk_induces (gm_mode1_cb QF 2 w_eig V_cplx) (eig_matrix V_cplx) = true /\
+  chk_induces (gm_mode1_cb QF 2 w_atol w_eig V_real) (eig_matrix V_real) = true /\
+  chk_induces (gm_mode1_cb QF 2 w_atol w_eig V_cplx) (eig_matrix V_cplx) = true /\
   chk_induces (gm_mode1_cb_doc QF 2 w_eig V_real) (eig_matrix V_real) = true /\
   chk_induces (gm_mode1_cb_doc QF 2 w_eig V_cplx) (eig_matrix V_cplx) = true.
 Proof. exact generate_mprocess_mode1_refuted. Qed.
 Print Assumptions C06_generate_mprocess_mode1_before_fix_refuted.
+
+(* before fix povm-generate-mprocess-mode1-eigenspace-tolerance (round 3; grouping by BITWISE equality = tol 0): for the eigen-decomposition
+   (w, V) = ((1, 1 + 1e-14), rotation) of the trivial effect I the pre-fix instrument is not the identity channel (it dephases in the
+   basis V); the code (tol = atol = 1e-13) gives the identity channel *)
+Theorem C06_generate_mprocess_mode1_before_tolerance_fix_refuted :
+  chk_unitary V_real = true /\ Qc_eq_bool (w_deg 0%nat) (w_deg 1%nat) = false /\ kleb QF (absF' QF (w_deg 1%nat - w_deg 0%nat)%Qc) w_atol = true /\
+  chk_identity_channel (gm_mode1_cb QF 2 w_atol w_deg V_real) = true /\
+  chk_identity_channel (gm_mode1_cb QF 2 0%Qc w_deg V_real) = false.
+Proof. exact generate_mprocess_mode1_eigenspace_refuted. Qed.
+Print Assumptions C06_generate_mprocess_mode1_before_tolerance_fix_refuted.
 
 (* ================================================================== the hypotheses are satisfiable (concrete, non-trivial instances) *)
 (* the basis hypotheses: 2-qubit normalised Pauli basis, sd = 2, exactly in Qc *)
@@ -273,8 +366,8 @@ Example C06_example_post_state : exists (E : ensemble QF) (st : rvec QF), w_cut 
 Proof. exact mprocess_poststate_fixed_witness. Qed.
 (* mode 1: rational unitaries (a real rotation, a complex symmetric one) with orthonormal columns, eig_matrix = V diag(w) V^dagger *)
 Example C06_example_mode1 : cols_orthonormal QF 2 V_real /\ cols_orthonormal QF 2 V_cplx /\
-  meq 2 2 (eig_matrix V_real) (spectral QF 2 w_eig V_real) /\ meq 2 2 (eig_matrix V_cplx) (spectral QF 2 w_eig V_cplx).
-Proof. exact (conj V_real_cols (conj V_cplx_cols (conj eig_matrix_spectral_real eig_matrix_spectral_cplx))). Qed.
+  meq 2 2 (eig_matrix V_real) (spectral QF 2 V_real w_eig) /\ meq 2 2 (eig_matrix V_cplx) (spectral QF 2 V_cplx w_eig) /\ kle QF (c0 QF) w_atol.
+Proof. exact (conj V_real_cols (conj V_cplx_cols (conj eig_matrix_spectral_real (conj eig_matrix_spectral_cplx w_atol_nonneg)))). Qed.
 (* mode 0: a Hermitian (complex, non-diagonal) S; Pi := S S *)
 Example C06_example_mode0 : hermitian 2 S_herm /\ meq 2 2 (mmul 2 S_herm S_herm) (mmul 2 S_herm S_herm).
 Proof. exact (conj S_herm_hermitian (meq_refl 2 2 _)). Qed.
